@@ -1,6 +1,8 @@
 -- root of the library: everything `lake build` (and MANIFEST.setup_cmd) checks
+import GlmVerif.Props.C01
 import GlmVerif.Props.C02
 import GlmVerif.Props.C04
+import GlmVerif.Props.C05
 import GlmVerif.Props.C07
 import GlmVerif.Props.C08
 import GlmVerif.Props.C09
